@@ -38,4 +38,8 @@ def build():
     pkg.protocols.append(("IMaps", [("m", smap, True), ("vm", T("vec", "SMap*", e=smap), True)]))
     pkg.protocols.append(("IShapes", [("r", rec, True), ("u", u3, True), ("v", T("vec", "string*", e=prim("string")), True),
                                       ("o", T("opt", "Rec?", e=rec), True)]))
+    # a field whose type is a generic parameter, instantiated with an optional: null is written by omitting the field
+    d.append(("Gen", "Gen<T>: !record\n  fields:\n    v: T\n    n: int32"))
+    gen_opt = T("rec", "Gen<int32?>", name="Gen", fields=[("v", T("opt", "int32?", e=prim("int32"))), ("n", prim("int32"))])
+    pkg.protocols.append(("IGen", [("g", gen_opt, True)]))
     return pkg, tested
